@@ -267,37 +267,34 @@ def setOrder (s : St) (o : Order) : St :=
 
 /-- `types.CalcPriceWithBridgingFee` -/
 def calcPrice (amt fee : Int) (mult : Dec) : M Int :=
-  let bridgingFee := (mult.mulInt amt).truncateInt
-  let price := amt - fee - bridgingFee
-  if 0 < price then .ok price else .error .feeTooHigh
+  if 0 < amt - fee - (mult.mulInt amt).truncateInt then .ok (amt - fee - (mult.mulInt amt).truncateInt) else .error .feeTooHigh
 
 /-- `BridgingFeeFromAmt` -/
 def bridgingFeeOf (s : St) (amt : Int) : Int := (s.bridgingFee.mulInt amt).truncateInt
 
 -- ---------------------------------------------------------------- ICS-20 effects (ibc-go transfer keeper, x/bridgingfee)
 
-/-- transfer `OnRecvPacket` below x/bridgingfee: credit `amount` of the packet's hub denom to the
-    receiver (unescrow or mint); for rollapp transfers the bridging fee is then charged from the
-    receiver (`ChargeFeesFromPayer` inside `ApplyFuncIfNoError`: skipped when it fails).
-    `none` = error acknowledgement, nothing changed. -/
-def icsRecv (s : St) (p : Packet) (isRollapp : Bool) : Option St :=
-  if p.target == blockedAddr then none else
-  let paid : Option St :=
-    if p.unescrow then sendCoins s (escrowAcct p.chan) p.target p.denom p.amount
-    else some (credit s p.target p.denom p.amount)
-  match paid with
-  | none => none
-  | some s1 =>
-    if isRollapp then
-      let fee := bridgingFeeOf s p.amount
-      if fee ≤ 0 then some s1 else
-      if getBal s1.bal p.target p.denom < fee then some s1 else some (debit s1 p.target p.denom fee)
-    else some s1
-
-/-- transfer `refundPacketToken`; `none` = error -/
-def icsRefund (s : St) (p : Packet) : Option St :=
+/-- the ICS-20 payout: `amount` of the packet's hub denom to the target, out of the channel escrow
+    (`unescrowToken`) or freshly minted; `none` = the escrow cannot pay -/
+def icsCredit (s : St) (p : Packet) : Option St :=
   if p.unescrow then sendCoins s (escrowAcct p.chan) p.target p.denom p.amount
   else some (credit s p.target p.denom p.amount)
+
+/-- x/bridgingfee: `ChargeFeesFromPayer` inside `ApplyFuncIfNoError` (skipped when it fails) -/
+def chargeBridgingFee (s : St) (p : Packet) : St :=
+  if bridgingFeeOf s p.amount ≤ 0 then s else
+  if getBal s.bal p.target p.denom < bridgingFeeOf s p.amount then s else debit s p.target p.denom (bridgingFeeOf s p.amount)
+
+/-- transfer `OnRecvPacket` below x/bridgingfee: credit the receiver; for rollapp transfers the
+    bridging fee is then charged from the receiver.  `none` = error acknowledgement, nothing changed. -/
+def icsRecv (s : St) (p : Packet) (isRollapp : Bool) : Option St :=
+  if p.target == blockedAddr then none else
+  match icsCredit s p with
+  | none => none
+  | some s1 => some (if isRollapp then chargeBridgingFee s1 p else s1)
+
+/-- transfer `refundPacketToken`; `none` = error -/
+def icsRefund (s : St) (p : Packet) : Option St := icsCredit s p
 
 def hasAck (s : St) (c seq : Nat) : Bool := s.acks.any (fun a => a.1.1 == c && a.1.2 == seq)
 
@@ -342,14 +339,15 @@ def eibcOnRecv (s : St) (p : Packet) (memo : Memo) : M St :=
     | .error e => .error e
     | .ok price => .ok (setOrder s (newOrder s p price fee p.target))
 
+/-- the fee of an order for a refund: `TimeoutFee` / `ErrAckFee` times the amount, truncated -/
+def refundFee (s : St) (p : Packet) : Int :=
+  ((if p.ptype == .onTimeout then s.timeoutFee else s.errAckFee).mulInt p.amount).truncateInt
+
 /-- `EIBCDemandOrderHandler` for ON_ACK (error ack) / ON_TIMEOUT -/
 def eibcOnRefund (s : St) (p : Packet) : M St :=
-  let mult := if p.ptype == .onTimeout then s.timeoutFee else s.errAckFee
-  let fee := (mult.mulInt p.amount).truncateInt
-  if fee ≤ 0 then .ok s else
-  let price := p.amount - fee
-  if price ≤ 0 then .error .invalid else
-  .ok (setOrder s (newOrder s p price fee p.target))
+  if refundFee s p ≤ 0 then .ok s else
+  if p.amount - refundFee s p ≤ 0 then .error .invalid else
+  .ok (setOrder s (newOrder s p (p.amount - refundFee s p) (refundFee s p) p.target))
 
 -- ---------------------------------------------------------------- IBC callbacks (x/delayedack/ibc_middleware.go)
 
@@ -368,84 +366,108 @@ structure RecvData where
 inductive RecvRes | replay | async | ackOk | ackErr
   deriving DecidableEq, Repr
 
+def cpIdOf (s : St) (c : Nat) : Bytes := match s.chans[c]? with | some ch => ch.cpId | none => []
+def hubIdOf (s : St) (c : Nat) : Bytes := match s.chans[c]? with | some ch => ch.hubId | none => []
+def drefDenom (c : Nat) : DRef → Denom
+  | .foreign => 1 + c
+  | .back x => x
+def drefUnescrow : DRef → Bool
+  | .foreign => false
+  | .back _ => true
+
 def mkRecvPacket (s : St) (c seq ph : Nat) (rid : Bytes) (d : RecvData) (tgt : Addr) : Packet :=
-  let cp := match s.chans[c]? with | some ch => ch.cpId | none => []
-  let (den, unesc) := match d.dref with | .foreign => (1 + c, false) | .back x => (x, true)
-  { status := .pending, rollappId := rid, proofHeight := ph, ptype := .onRecv, srcChan := cp, seq := seq, chan := c,
-    denom := den, unescrow := unesc, amount := d.amount, target := tgt, orig := none, ackErr := false, failed := false }
+  { status := .pending, rollappId := rid, proofHeight := ph, ptype := .onRecv, srcChan := cpIdOf s c, seq := seq, chan := c,
+    denom := drefDenom c d.dref, unescrow := drefUnescrow d.dref, amount := d.amount, target := tgt, orig := none,
+    ackErr := false, failed := false }
 
 /-- the acknowledgement core IBC writes after a synchronous callback -/
 def writeAck (s : St) (c seq : Nat) (ok : Bool) : St := { s with acks := s.acks ++ [((c, seq), ok)] }
 
+/-- an error acknowledgement: the callback's writes are dropped, the ack is written -/
+def recvFail (s0 : St) (c seq : Nat) : St × RecvRes := (writeAck s0 c seq false, .ackErr)
+
+/-- `TransferDataWithFinalization.Finalized` -/
+def isFinalizedFor (s : St) (ra : Option Bytes) (ph : Nat) : Bool :=
+  match ra with
+  | none => false
+  | some r => match finHeight s r with
+    | some f => decide (ph ≤ f)
+    | none => false
+
+/-- not a rollapp, or already final: straight to the transfer stack -/
+def recvPass (s0 : St) (c seq : Nat) (p : Packet) (ra : Option Bytes) : St × RecvRes :=
+  match icsRecv s0 p ra.isSome with
+  | none => recvFail s0 c seq
+  | some s1 => (writeAck (logRelease s1 p ra false) c seq true, .ackOk)
+
+/-- dry run, then `savePacket` + `EIBCDemandOrderHandler` -/
+def recvDelay (s0 : St) (c seq : Nat) (p : Packet) (memo : Memo) : St × RecvRes :=
+  match icsRecv s0 p true with
+  | none => recvFail s0 c seq
+  | some _ =>
+    match eibcOnRecv (setPacket (addByAddr s0 p.target (pkey p)) p) p memo with
+    | .error _ => recvFail s0 c seq
+    | .ok s2 => (s2, .async)
+
+/-- `IBCMiddleware.OnRecvPacket` (receipt already written) -/
+def recvAuth (s0 : St) (c seq ph : Nat) (d : RecvData) : St × RecvRes :=
+  match chanRollapp s0 c with
+  | .error _ => recvFail s0 c seq
+  | .ok ra =>
+    if d.amount ≤ 0 then recvFail s0 c seq else
+    match d.target with
+    | none => recvFail s0 c seq
+    | some tgt =>
+      if ra.isNone || isFinalizedFor s0 ra ph then recvPass s0 c seq (mkRecvPacket s0 c seq ph (ra.getD []) d tgt) ra
+      else recvDelay s0 c seq (mkRecvPacket s0 c seq ph (ra.getD []) d tgt) d.memo
+
 /-- ibc-go core `RecvPacket` + `IBCMiddleware.OnRecvPacket` -/
 def recvPacket (s : St) (c seq ph : Nat) (d : RecvData) : St × RecvRes :=
   if s.receipts.contains (c, seq) then (s, .replay) else
-  let s0 := { s with receipts := s.receipts ++ [(c, seq)] }
-  let fail := (writeAck s0 c seq false, RecvRes.ackErr)
-  match chanRollapp s0 c with
-  | .error _ => fail
-  | .ok ra =>
-    if d.amount ≤ 0 then fail else
-    match d.target with
-    | none => fail
-    | some tgt =>
-      let rid := ra.getD []
-      let p := mkRecvPacket s0 c seq ph rid d tgt
-      let finalized := match ra with
-        | none => false
-        | some r => match finHeight s0 r with | some f => decide (ph ≤ f) | none => false
-      if ra.isNone || finalized then
-        match icsRecv s0 p ra.isSome with
-        | none => fail
-        | some s1 => (writeAck (logRelease s1 p ra false) c seq true, .ackOk)
-      else
-        match icsRecv s0 p true with
-        | none => fail
-        | some _ =>
-          let s1 := setPacket (addByAddr s0 tgt (pkey p)) p
-          match eibcOnRecv s1 p d.memo with
-          | .error _ => fail
-          | .ok s2 => (s2, .async)
+  recvAuth { s with receipts := s.receipts ++ [(c, seq)] } c seq ph d
 
 def getSent (s : St) (c seq : Nat) : Option Sent := s.sent.find? (fun x => x.chan == c && x.seq == seq)
 
 def mkSentPacket (s : St) (x : Sent) (t : PType) (ph : Nat) (rid : Bytes) (ackErr : Bool) : Packet :=
-  let hub := match s.chans[x.chan]? with | some ch => ch.hubId | none => []
-  { status := .pending, rollappId := rid, proofHeight := ph, ptype := t, srcChan := hub, seq := x.seq, chan := x.chan,
+  { status := .pending, rollappId := rid, proofHeight := ph, ptype := t, srcChan := hubIdOf s x.chan, seq := x.seq, chan := x.chan,
     denom := x.denom, unescrow := x.unescrow, amount := x.amount, target := x.sender, orig := none, ackErr := ackErr, failed := false }
 
-/-- ibc-go core `AcknowledgePacket` / `TimeoutPacket` + `IBCMiddleware.OnAcknowledgementPacket` /
-    `OnTimeoutPacket`.  `isErr`: error acknowledgement (timeouts always refund).
+def sentType (isTimeout : Bool) : PType := if isTimeout then .onTimeout else .onAck
+
+/-- not a rollapp, or already final -/
+def ackPass (s0 : St) (p : Packet) (ra : Option Bytes) (refund : Bool) : M (Option St) :=
+  if refund then
+    match icsRefund s0 p with
+    | none => .error .insufficient
+    | some s1 => .ok (some (logRelease s1 p ra false))
+  else .ok (some (logRelease s0 p ra false))
+
+/-- dry run, `savePacket`, and the eIBC order for refunds -/
+def ackDelay (s0 : St) (p : Packet) (refund : Bool) : M (Option St) :=
+  if refund && (icsRefund s0 p).isNone then .error .insufficient else
+  if refund then
+    match eibcOnRefund (setPacket (addByAddr s0 p.target (pkey p)) p) p with
+    | .error e => .error e
+    | .ok s2 => .ok (some s2)
+  else .ok (some (setPacket (addByAddr s0 p.target (pkey p)) p))
+
+/-- `IBCMiddleware.OnAcknowledgementPacket` / `OnTimeoutPacket` (commitment already deleted) -/
+def ackAuth (s0 : St) (x : Sent) (ph : Nat) (isTimeout isErr : Bool) : M (Option St) :=
+  match chanRollapp s0 x.chan with
+  | .error e => .error e
+  | .ok ra =>
+    if ra.isNone || isFinalizedFor s0 ra ph then
+      ackPass s0 (mkSentPacket s0 x (sentType isTimeout) ph (ra.getD []) (!isTimeout && isErr)) ra (isTimeout || isErr)
+    else ackDelay s0 (mkSentPacket s0 x (sentType isTimeout) ph (ra.getD []) (!isTimeout && isErr)) (isTimeout || isErr)
+
+/-- ibc-go core `AcknowledgePacket` / `TimeoutPacket` + the middleware callback.
+    `isErr`: error acknowledgement (timeouts always refund).
     `.ok none` = redelivery (no commitment): no-op. -/
-def ackPacket (s : St) (c seq ph : Nat) (t : PType) (isErr : Bool) : M (Option St) :=
+def ackPacket (s : St) (c seq ph : Nat) (isTimeout : Bool) (isErr : Bool) : M (Option St) :=
   if !s.commits.contains (c, seq) then .ok none else
   match getSent s c seq with
   | none => .error .internal
-  | some x =>
-    let s0 := { s with commits := s.commits.filter (· != (c, seq)) }
-    match chanRollapp s0 c with
-    | .error e => .error e
-    | .ok ra =>
-      let rid := ra.getD []
-      let refund := t == .onTimeout || isErr
-      let p := mkSentPacket s0 x t ph rid (t == .onAck && isErr)
-      let finalized := match ra with
-        | none => false
-        | some r => match finHeight s0 r with | some f => decide (ph ≤ f) | none => false
-      if ra.isNone || finalized then
-        if refund then
-          match icsRefund s0 p with
-          | none => .error .insufficient
-          | some s1 => .ok (some (logRelease s1 p ra false))
-        else .ok (some (logRelease s0 p ra false))
-      else
-        if refund && (icsRefund s0 p).isNone then .error .insufficient else
-        let s1 := setPacket (addByAddr s0 x.sender (pkey p)) p
-        if refund then
-          match eibcOnRefund s1 p with
-          | .error e => .error e
-          | .ok s2 => .ok (some s2)
-        else .ok (some s1)
+  | some x => ackAuth { s with commits := s.commits.filter (· != (c, seq)) } x ph isTimeout isErr
 
 /-- `MsgTransfer` (ibc-go transfer `sendTransfer` through the hub's ICS4 wrappers) -/
 def getNextSeq (s : St) (c : Nat) : Nat :=
@@ -453,18 +475,22 @@ def getNextSeq (s : St) (c : Nat) : Nat :=
   | some x => x.2
   | none => 1
 
+/-- escrow (or burn, for the channel's own voucher) -/
+def lockCoins (s : St) (a : Addr) (c : Nat) (d : Denom) (amt : Int) : St :=
+  if d != 1 + c then credit (debit s a d amt) (escrowAcct c) d amt else debit s a d amt
+
+def recordSent (s : St) (a : Addr) (c : Nat) (d : Denom) (amt : Int) (seq : Nat) : St :=
+  { s with sent := s.sent ++ [{ chan := c, seq := seq, sender := a, denom := d, unescrow := d != 1 + c, amount := amt }],
+           commits := s.commits ++ [(c, seq)],
+           nextSeq := (c, seq + 1) :: s.nextSeq.filter (·.1 != c) }
+
 def sendTransfer (s : St) (a : Addr) (c : Nat) (d : Denom) (amt : Int) : M St :=
   if amt ≤ 0 then .error .invalid else
   match chanRollapp s c with
   | .error e => .error e
   | .ok _ =>
     if getBal s.bal a d < amt then .error .insufficient else
-    let unesc := d != 1 + c
-    let s1 := if unesc then credit (debit s a d amt) (escrowAcct c) d amt else debit s a d amt
-    let seq := getNextSeq s c
-    .ok { s1 with sent := s1.sent ++ [{ chan := c, seq := seq, sender := a, denom := d, unescrow := unesc, amount := amt }],
-                  commits := s1.commits ++ [(c, seq)],
-                  nextSeq := (c, seq + 1) :: s1.nextSeq.filter (·.1 != c) }
+    .ok (recordSent (lockCoins s a c d amt) a c d amt (getNextSeq s c))
 
 -- ---------------------------------------------------------------- finalization (x/delayedack/keeper/finalize.go)
 
@@ -474,26 +500,29 @@ def afterPacketStatusUpdated (s : St) (oldKey newKey : Bytes) (newStatus : Statu
   | none => s
   | some o => setOrder (delOrder s .pending o.id) { o with trackingKey := newKey, status := newStatus }
 
+/-- `ibc.OnRecvPacket` at finalization: state after it and whether the ack is a success -/
+def recvRelease (s : St) (p : Packet) : St × Bool :=
+  match icsRecv s p true with
+  | some s1 => (s1, true)
+  | none => (s, false)
+
+/-- `writeRecvAck`: `WriteAcknowledgement` fails when an acknowledgement is already stored -/
+def writeRecvAck (s : St) (p : Packet) (ok : Bool) : St × Bool :=
+  if hasAck s p.chan p.seq then (s, true) else (writeAck s p.chan p.seq ok, false)
+
+/-- refund at finalization inside `ApplyFuncIfNoError` -/
+def refundRelease (s : St) (p : Packet) : St × Bool :=
+  match icsRefund s p with
+  | some s1 => (s1, false)
+  | none => (s, true)
+
 /-- the type switch of `finalizeRollappPacket`: run the ICS-20 callback for real;
     the flag is "`packetErr != nil`" -/
 def releaseEffect (s : St) (p : Packet) : St × Bool :=
   match p.ptype with
-  | .onRecv =>
-    let r := match icsRecv s p true with
-      | some s1 => (s1, true)
-      | none => (s, false)
-    -- `writeRecvAck`: `WriteAcknowledgement` fails when an acknowledgement is already stored
-    if hasAck r.1 p.chan p.seq then (r.1, true) else (writeAck r.1 p.chan p.seq r.2, false)
-  | .onAck =>
-    if p.ackErr then
-      match icsRefund s p with
-      | some s1 => (s1, false)
-      | none => (s, true)
-    else (s, false)
-  | .onTimeout =>
-    match icsRefund s p with
-    | some s1 => (s1, false)
-    | none => (s, true)
+  | .onRecv => writeRecvAck (recvRelease s p).1 p (recvRelease s p).2
+  | .onAck => if p.ackErr then refundRelease s p else (s, false)
+  | .onTimeout => refundRelease s p
   | .undefined => (s, false)
 
 /-- `RestoreOriginalTransferTarget`.  The Go method has a value receiver but writes the restored data
@@ -504,13 +533,19 @@ def restoreTarget (p : Packet) : Packet :=
   | some o => { p with target := o }
   | none => p
 
+def flipped (p : Packet) : Packet := { p with status := .finalized }
+
 /-- `UpdateRollappPacketAfterFinalization` -/
 def updateAfterFinalization (s : St) (p : Packet) : M St :=
   if p.status != .pending then .error .notPending else
-  let oldKey := pkey p
-  let s1 := delPacket (delByAddr s p.target oldKey) oldKey
-  let pf := { p with status := .finalized }
-  .ok (afterPacketStatusUpdated (setPacket s1 pf) oldKey (pkey pf) .finalized)
+  .ok (afterPacketStatusUpdated (setPacket (delPacket (delByAddr s p.target (pkey p)) (pkey p)) (flipped p))
+        (pkey p) (pkey (flipped p)) .finalized)
+
+/-- the packet as `finalizeRollappPacket` hands it to `UpdateRollappPacketAfterFinalization`:
+    `writeRecvAck` restored the original transfer target in place (aliasing, see `restoreTarget`),
+    `Error` is set when the callback failed -/
+def finalizedRecord (p : Packet) (failed : Bool) : Packet :=
+  { (if p.ptype == .onRecv then restoreTarget p else p) with failed := p.failed || failed }
 
 /-- `FinalizeRollappPacket` -/
 def finalizePacket (s : St) (k : Bytes) : M St :=
@@ -520,11 +555,7 @@ def finalizePacket (s : St) (k : Bytes) : M St :=
     match verifyHeightFinalized s p.rollappId p.proofHeight with
     | .error e => .error e
     | .ok _ =>
-      let r := releaseEffect s p
-      let s1 := logRelease r.1 p (some p.rollappId) true
-      -- `writeRecvAck` restored the original transfer target in place (aliasing, see `restoreTarget`)
-      let p1 := if p.ptype == .onRecv then restoreTarget p else p
-      updateAfterFinalization s1 { p1 with failed := p.failed || r.2 }
+      updateAfterFinalization (logRelease (releaseEffect s p).1 p (some p.rollappId) true) (finalizedRecord p (releaseEffect s p).2)
 
 /-- `MsgFinalizePacket` (the sender is not used) -/
 def msgFinalize (s : St) (_sender : Addr) (rid : Bytes) (ph : Nat) (t : PType) (src : Bytes) (seq : Nat) : M St :=
@@ -540,14 +571,15 @@ def msgFinalizeByKey (s : St) (_sender : Addr) (b64 : Bytes) : M St :=
 
 -- ---------------------------------------------------------------- fulfilment (x/eibc/keeper)
 
+def retarget (p : Packet) (addr : Addr) : Packet := { p with target := addr, orig := some p.target }
+
 /-- `UpdateRollappPacketTransferAddress` -/
 def updateTransferAddress (s : St) (k : Bytes) (addr : Addr) : M St :=
   match getPacket s k with
   | none => .error .notFound
   | some p =>
     if p.status != .pending then .error .notPending else
-    let p' := { p with target := addr, orig := some p.target }
-    .ok (setPacket (addByAddr (delByAddr s p.target k) addr (pkey p')) p')
+    .ok (setPacket (addByAddr (delByAddr s p.target k) addr (pkey (retarget p addr))) (retarget p addr))
 
 /-- `GetOutstandingOrder` -/
 def getOutstanding (s : St) (id : Bytes) : M Order :=
@@ -565,8 +597,7 @@ def getOutstanding (s : St) (id : Bytes) : M Order :=
 
 /-- `SetOrderFulfilled` + delayedack `AfterDemandOrderFulfilled` -/
 def setOrderFulfilled (s : St) (o : Order) (fulfiller : Addr) (collector : Option Addr) : M St :=
-  let s1 := setOrder s { o with fulfiller := some fulfiller }
-  updateTransferAddress s1 o.trackingKey (collector.getD fulfiller)
+  updateTransferAddress (setOrder s { o with fulfiller := some fulfiller }) o.trackingKey (collector.getD fulfiller)
 
 /-- `Keeper.Fulfill` -/
 def fulfillCore (s : St) (o : Order) (fulfiller : Addr) : M St :=
@@ -592,8 +623,7 @@ def msgUpdateFee (s : St) (sender : Addr) (id : Bytes) (newFee : Int) : M St :=
     match getPacket s o.trackingKey with
     | none => .error .notFound
     | some p =>
-      let mult := if p.ptype == .onRecv then s.bridgingFee else Dec.zero
-      match calcPrice p.amount newFee mult with
+      match calcPrice p.amount newFee (if p.ptype == .onRecv then s.bridgingFee else Dec.zero) with
       | .error e => .error e
       | .ok price => .ok (setOrder s { o with fee := newFee, price := price })
 
@@ -604,10 +634,8 @@ def lpMaxSpend (l : LP) : Int := min l.maxPrice (l.spendLimit - l.spent)
 
 /-- `OnDemandLPRecord.Accepts` (the age is a uint64 subtraction) -/
 def lpAccepts (l : LP) (now : Nat) (o : Order) : Bool :=
-  let priceOK := decide (o.price ≤ lpMaxSpend l)
-  let feeOK := decide (l.minFee ≤ o.fee)
-  let ageOK := decide (l.minAge ≤ (now + 2 ^ 64 - o.creationHeight) % 2 ^ 64)
-  priceOK && feeOK && ageOK
+  decide (o.price ≤ lpMaxSpend l) && decide (l.minFee ≤ o.fee) &&
+  decide (l.minAge ≤ (now + 2 ^ 64 - o.creationHeight) % 2 ^ 64)
 
 /-- `GetOrderCompatibleLPs`: the (rollapp, denom) index scanned in id order -/
 def compatibleLPs (s : St) (o : Order) : List LP :=
@@ -665,14 +693,15 @@ def coinsAmountOf (c : Coins) (d : Denom) : Int :=
 def coinsIsZero (c : Coins) : Bool := c.all (·.2 == 0)
 
 /-- `Coins.SafeSub`: a − b and "some coin went negative" (zero coins are dropped) -/
+def coinsMerge (a b : Coins) : Coins :=
+  a.map (fun x => (x.1, x.2 - coinsAmountOf b x.1)) ++ (b.filter (fun y => !(a.any (·.1 == y.1)))).map (fun y => (y.1, -y.2))
+
 def coinsSafeSub (a b : Coins) : Coins × Bool :=
-  let onlyB := b.filter (fun y => !(a.any (·.1 == y.1)))
-  let merged := a.map (fun x => (x.1, x.2 - coinsAmountOf b x.1)) ++ onlyB.map (fun y => (y.1, -y.2))
-  (merged.filter (·.2 != 0), merged.any (·.2 < 0))
+  ((coinsMerge a b).filter (·.2 != 0), (coinsMerge a b).any (·.2 < 0))
 
 /-- `exceedsMaxPrice` -/
 def exceedsMaxPrice (price maxPrice : Coins) : Bool :=
-  price.any (fun c => let m := coinsAmountOf maxPrice c.1; m != 0 && decide (m < c.2))
+  price.any (fun c => coinsAmountOf maxPrice c.1 != 0 && decide (coinsAmountOf maxPrice c.1 < c.2))
 
 structure AuthMsg where
   orderId : Bytes
@@ -688,6 +717,20 @@ structure AuthMsg where
 
 /-- `FulfillOrderAuthorization.Accept`: `.ok none` = accept and delete the grant,
     `.ok (some g)` = accept and store g -/
+def grantMinFee (c : Criteria) (amount : Int) : Int := (c.minFeePct.mulInt amount).truncateInt
+
+/-- the grant after spending: the criteria's limit reduced, the criteria removed when nothing is left -/
+def spendCriteria (g : Grant) (rid : Bytes) (left : Coins) : List Criteria :=
+  if coinsIsZero left then g.crit.filter (·.rollappId != rid)
+  else g.crit.map (fun x => if x.rollappId == rid then { x with spendLimit := left } else x)
+
+def acceptSpend (g : Grant) (c : Criteria) (m : AuthMsg) : M (Option Grant) :=
+  if !coinsIsZero c.spendLimit then
+    if (coinsSafeSub c.spendLimit m.price).2 then .error .insufficient else
+    if (spendCriteria g m.rollappId (coinsSafeSub c.spendLimit m.price).1).isEmpty then .ok none
+    else .ok (some { g with crit := spendCriteria g m.rollappId (coinsSafeSub c.spendLimit m.price).1 })
+  else .ok (some g)
+
 def acceptGrant (g : Grant) (m : AuthMsg) : M (Option Grant) :=
   match g.crit.find? (·.rollappId == m.rollappId) with
   | none => .error .unauthorized
@@ -695,16 +738,9 @@ def acceptGrant (g : Grant) (m : AuthMsg) : M (Option Grant) :=
     if c.sv != m.sv then .error .unauthorized else
     if c.opShare != m.share then .error .unauthorized else
     if !c.denoms.isEmpty && m.price.any (fun x => !c.denoms.contains x.1) then .error .unauthorized else
-    let minFee := (c.minFeePct.mulInt m.amount).truncateInt
-    if m.expectedFee < minFee then .error .unauthorized else
+    if m.expectedFee < grantMinFee c m.amount then .error .unauthorized else
     if !coinsIsZero c.maxPrice && exceedsMaxPrice m.price c.maxPrice then .error .unauthorized else
-    if !coinsIsZero c.spendLimit then
-      let r := coinsSafeSub c.spendLimit m.price
-      if r.2 then .error .insufficient else
-      let crit' := if coinsIsZero r.1 then g.crit.filter (·.rollappId != m.rollappId)
-                   else g.crit.map (fun x => if x.rollappId == m.rollappId then { x with spendLimit := r.1 } else x)
-      if crit'.isEmpty then .ok none else .ok (some { g with crit := crit' })
-    else .ok (some g)
+    acceptSpend g c m
 
 def getGrant (s : St) (granter grantee : Addr) : Option Grant :=
   s.grants.find? (fun g => g.granter == granter && g.grantee == grantee)
@@ -742,6 +778,12 @@ def authMsgValid (m : AuthMsg) : Bool :=
   decide (0 ≤ m.expectedFee) && m.price.all (fun c => decide (0 < c.2)) && decide (0 < m.amount) &&
   !m.share.isNegative && Dec.le m.share Dec.one
 
+/-- the operator's part of the fee: `fee.MulTruncate(share).TruncateInt()` -/
+def operatorFee (fee : Int) (share : Dec) : Int := ((Dec.ofInt fee).mulTruncate share).truncateInt
+
+def payOperator (s : St) (lp op : Addr) (d : Denom) (opFee : Int) : Option St :=
+  if 0 < opFee then sendCoins s lp op d opFee else some s
+
 /-- the handler `FulfillOrderAuthorized` -/
 def fulfillAuthorizedCore (s : St) (m : AuthMsg) : M St :=
   match getOutstanding s m.orderId with
@@ -755,9 +797,7 @@ def fulfillAuthorizedCore (s : St) (m : AuthMsg) : M St :=
       | none => .error .insufficient
       | some s1 =>
         if !s1.accts.contains m.opAddr then .error .noAccount else
-        let opFee := ((Dec.ofInt o.fee).mulTruncate m.share).truncateInt
-        let paid : Option St := if 0 < opFee then sendCoins s1 m.lp m.opAddr o.denom opFee else some s1
-        match paid with
+        match payOperator s1 m.lp m.opAddr o.denom (operatorFee o.fee m.share) with
         | none => .error .insufficient
         | some s2 => setOrderFulfilled s2 o m.opAddr (some m.lp)
 
@@ -793,11 +833,10 @@ def msgGrant (s : St) (g : Grant) : M St :=
 -- ---------------------------------------------------------------- packet deletion: epoch hook, hard fork
 
 /-- `DeleteRollappPacket` + eibc `AfterPacketDeleted` -/
+def pendKeyOf (p : Packet) : Bytes := pkey { p with status := .pending }
+
 def deletePacket (s : St) (p : Packet) : St :=
-  let k := pkey p
-  let s1 := delByAddr (delPacket s k) p.target k
-  let pendKey := pkey { p with status := .pending }
-  delOrder (delOrder s1 .pending pendKey) .finalized pendKey
+  delOrder (delOrder (delByAddr (delPacket s (pkey p)) p.target (pkey p)) .pending (pendKeyOf p)) .finalized (pendKeyOf p)
 
 /-- delayedack `epochHooks.AfterEpochEnd`: all FINALIZED packets go (one batch: fewer than 1000) -/
 def epochCleanup (s : St) : St :=
@@ -805,18 +844,23 @@ def epochCleanup (s : St) : St :=
 
 /-- delayedack `OnHardFork`: pending packets of the rollapp with proof height in
     `[lastValid+1, 2^64-1)` are deleted; commitments restored / receipts cleared -/
+def revertIbc (s : St) (p : Packet) : St :=
+  if p.ptype == .onRecv then { s with receipts := s.receipts.filter (· != (p.chan, p.seq)) }
+  else { s with commits := if s.commits.contains (p.chan, p.seq) then s.commits else s.commits ++ [(p.chan, p.seq)] }
+
 def revertPacket (s : St) (p : Packet) : St :=
-  let s1 := if p.ptype == .onRecv then { s with receipts := s.receipts.filter (· != (p.chan, p.seq)) }
-            else { s with commits := if s.commits.contains (p.chan, p.seq) then s.commits else s.commits ++ [(p.chan, p.seq)] }
   -- the commitment is computed from `RestoreOriginalTransferTarget()`, which rewrites the packet in place
-  deletePacket s1 (if p.ptype == .onRecv then p else restoreTarget p)
+  deletePacket (revertIbc s p) (if p.ptype == .onRecv then p else restoreTarget p)
 
 def forkRange (rid : Bytes) (lastValid : Nat) (k : Bytes) : Bool :=
-  let r := pendingFromHeightRange rid ((lastValid + 1) % 2 ^ 64)
-  inRange r.1 r.2 k
+  inRange (pendingFromHeightRange rid ((lastValid + 1) % 2 ^ 64)).1 (pendingFromHeightRange rid ((lastValid + 1) % 2 ^ 64)).2 k
 
 def onHardFork (s : St) (rid : Bytes) (lastValid : Nat) : St :=
   (s.packets.filter (fun p => forkRange rid lastValid (pkey p))).foldl revertPacket s
+
+def cutHeights (hs : List Nat) (lastValid : Nat) : List Nat :=
+  if (hs.filter (· ≤ lastValid)).getLast? == some lastValid then hs.filter (· ≤ lastValid)
+  else hs.filter (· ≤ lastValid) ++ [lastValid]
 
 /-- the rollapp side of a fork as the harness writes it: state infos above `lastValid` go, the one
     containing `lastValid + 1` is cut.  Refused below the finalized height. -/
@@ -829,9 +873,7 @@ def forkRollapp (s : St) (rid : Bytes) (lastValid : Nat) : M St :=
     | none => .error .invalid
     | some l =>
       if l ≤ lastValid then .error .invalid else
-      let kept := r.heights.filter (· ≤ lastValid)
-      let hs := if kept.getLast? == some lastValid then kept else kept ++ [lastValid]
-      .ok (onHardFork (setRa s { r with heights := hs }) rid lastValid)
+      .ok (onHardFork (setRa s { r with heights := cutHeights r.heights lastValid }) rid lastValid)
 
 /-- a new state info up to height `h` (stands for an accepted MsgUpdateState) -/
 def addState (s : St) (rid : Bytes) (n : Nat) : M St :=
@@ -878,15 +920,15 @@ def ofM (s : St) : M St → St × Out
 
 /-- one operation; a failed message leaves the state untouched (baseapp's cache context) -/
 def step (s : St) : Op → St × Out
-  | .recv c seq ph d => let r := recvPacket s c seq ph d; (r.1, .recv r.2)
+  | .recv c seq ph d => ((recvPacket s c seq ph d).1, .recv (recvPacket s c seq ph d).2)
   | .send a c d amt => ofM s (sendTransfer s a c d amt)
   | .ack c seq ph isErr =>
-    match ackPacket s c seq ph .onAck isErr with
+    match ackPacket s c seq ph false isErr with
     | .ok none => (s, .replay)
     | .ok (some s') => (s', .ok)
     | .error e => (s, .err e)
   | .timeout c seq ph =>
-    match ackPacket s c seq ph .onTimeout true with
+    match ackPacket s c seq ph true true with
     | .ok none => (s, .replay)
     | .ok (some s') => (s', .ok)
     | .error e => (s, .err e)
